@@ -18,6 +18,9 @@ class C12(Prop):
                "rmprefix": 1, "move": 1, "rule": 2, "unrule": 1, "reopen": 4, "clear": 1}
     QUICK = (40, 22)
     THOROUGH = (200, 40)
+    TECHNIQUE = ("stateful property-based testing (Hypothesis) against a ledger oracle; thorough tier adds coverage-guided "
+                 "fuzzing of histories (atheris/libFuzzer driving Hypothesis' fuzz_one_input)")
+    FUZZ_RUNS = 400
     ASSUMPTIONS = ["ids are compared with the ids the index itself reported earlier; no particular numbering is assumed"]
 
     def before_op(self, case, op):
